@@ -228,7 +228,7 @@ def replay_main(args):
     for k in known:
         print("KNOWN-FINDING: property=%s %s" % (prop.ID, k))
     if unknown:
-        for f in unknown:
+        for f in unknown[:4]:
             print("  failed sub-check %s %s %s" % (f.subcheck, json.dumps(f.features), json.dumps(_jsonable(f.detail))[:600]))
         print("VIOLATION property=%s replay=%s" % (prop.ID, args.replay))
         return 1
@@ -309,7 +309,7 @@ def main(argv=None):
             shutil.rmtree(scratch, ignore_errors=True)
             os.dup2(saved, 1)
         for fn, unknown in bad:
-            for f in unknown:
+            for f in unknown[:4]:
                 print("  failed sub-check %s %s %s" % (f.subcheck, json.dumps(f.features), json.dumps(_jsonable(f.detail))[:400]))
             print("VIOLATION property=%s replay=%s" % (args.prop, os.path.join("replays", fn)))
             status = 1
@@ -360,7 +360,7 @@ def main(argv=None):
         if sig in seen_sig:
             continue
         seen_sig.add(sig)
-        for f in v["fails"]:
+        for f in v["fails"][:4]:
             print("  failed sub-check %s %s %s" % (f["subcheck"], json.dumps(f["features"]), json.dumps(f["detail"])[:400]))
         print("VIOLATION property=%s replay=%s" % (args.prop, rel))
         status = 1
